@@ -108,21 +108,23 @@ def regfileStep (cfg : Cfg) (mem : Mem) (op : Op) : Except Err Val × Mem :=
     | .writeSingleRegister | .writeMultipleRegisters =>
       (.ok .unit, { mem with holding := store mem.holding a (regImage cfg op) })
 
-/-- the request object the server's handler must be given for an accepted call: unit id, start
-    address, quantity, direction, and for writes the values in the documented layout
-    (`none`: the call is refused locally, no handler is invoked) -/
+/-- the request object of an accepted call: unit id, start address, quantity, direction, and for
+    writes the values in the documented layout -/
+def handlerReq (cfg : Cfg) (op : Op) : HReq :=
+  let u := cfg.unitId
+  let a := addr op
+  let n := u16OfNat (items op)
+  match fn op with
+  | .readCoils => .coils u a n false []
+  | .readDiscreteInputs => .discrete u a n
+  | .readRegisters => if regType? op = some 1 then .input u a n else .holding u a n false []
+  | .writeSingleCoil | .writeMultipleCoils => .coils u a n true (coilArgs op)
+  | .writeSingleRegister | .writeMultipleRegisters => .holding u a n true (regImage cfg op)
+
+/-- the request object the server's handler must be given (`none`: the call is refused locally,
+    no handler is invoked) -/
 def handlerSees (cfg : Cfg) (op : Op) : Option HReq :=
-  if breaksLimits op then none
-  else
-    let u := cfg.unitId
-    let a := addr op
-    let n := u16OfNat (items op)
-    some (match fn op with
-      | .readCoils => .coils u a n false []
-      | .readDiscreteInputs => .discrete u a n
-      | .readRegisters => if regType? op = some 1 then .input u a n else .holding u a n false []
-      | .writeSingleCoil | .writeMultipleCoils => .coils u a n true (coilArgs op)
-      | .writeSingleRegister | .writeMultipleRegisters => .holding u a n true (regImage cfg op))
+  if breaksLimits op then none else some (handlerReq cfg op)
 
 /-! ### histories -/
 
@@ -153,5 +155,22 @@ def regfileRun (cfg : Cfg) (mem : Mem) :
     | .error err =>
       let y := regfileRun cfg mem cs
       (.error err :: y.1, y.2)
+
+/-- the handler invocations of a history, in order: one per call that is not refused, with the
+    settings in force at that moment (they do not depend on the memory contents) -/
+def regfileCalls (cfg : Cfg) : List System.Cmd → List HReq
+  | [] => []
+  | .op o :: cs => (handlerSees cfg o).toList ++ regfileCalls cfg cs
+  | .setUnit u :: cs => regfileCalls { cfg with unitId := u } cs
+  | .setEnc e w :: cs =>
+    match regfileSetEnc cfg e w with
+    | .ok cfg' => regfileCalls cfg' cs
+    | .error _ => regfileCalls cfg cs
+
+/-- the number of requests a history puts on the wire: one per call that is not refused locally -/
+def requestsSent : List System.Cmd → Nat
+  | [] => 0
+  | .op o :: cs => (if breaksLimits o then 0 else 1) + requestsSent cs
+  | _ :: cs => requestsSent cs
 
 end Modbus.Spec
